@@ -535,6 +535,8 @@ pub fn run(ctx: &Ctx) -> Report {
     let reduced: Vec<E> = vec![
         E::Lit(V::Null), E::Lit(V::Int(0)), E::Lit(V::Int(-1)), E::Lit(V::Int(32)), E::Lit(V::Int(i32::MIN)),
         E::Lit(V::Int(i32::MAX)), E::Lit(V::Str("a".into())), E::Col("c1".into()), E::Col("cMax".into()), E::Col("sa".into()),
+        // a second string, as literal and as column: chains such as 'a' + sb + 'a' must keep their operand order
+        E::Lit(V::Str("b".into())), E::Col("sb".into()),
     ];
     let d1 = depth1_trees(&reduced);
     let mut d2: Vec<E> = Vec::new();
@@ -640,7 +642,7 @@ pub fn run(ctx: &Ctx) -> Report {
     rep.push(v);
 
     st.exhaustive = Some(true);
-    rep.extra.insert("exhaustive_over".into(), json!("all trees of depth <= 1 over 18 operators x 24 leaves; depth-2 trees with one leaf side over 10 leaves"));
+    rep.extra.insert("exhaustive_over".into(), json!("all trees of depth <= 1 over 18 operators x 24 leaves; depth-2 trees with one leaf side over 12 leaves"));
     rep.stats = st;
     rep
 }
